@@ -46,11 +46,11 @@ type c07Item struct {
 	G int    `json:"g,omitempty"` // generator sleeps G ticks before sending this item
 	D int    `json:"d,omitempty"` // the mapper sleeps D ticks ...
 	W int    `json:"w,omitempty"` // ... then writes W values ...
-	A string `json:"a,omitempty"` // ... then: "" | cancel | cancelnil | panic | goexit (runtime.Goexit, what t.Fatal does: outcome unspecified)
-	V string `json:"v,omitempty"` // value of the item itself: "" int | str | struct | nil | nilptr | zero | empty | zerostruct
-	X string `json:"x,omitempty"` // values the mapper writes: "" struct{item,k} | nil | nilptr | zero | slice (uncomparable)
+	A string `json:"a,omitempty"` // ... then: "" | cancel | cancelnil | panic | cancelpanic (cancel(err), then panic, in one mapper) | goexit (runtime.Goexit, what t.Fatal does: outcome unspecified) | nilfn (Finish / FinishVoid only: the function value itself is nil — a typed-nil item; outcome unspecified)
+	V string `json:"v,omitempty"` // value of the item itself: "" int | str | struct | nil | nilptr | zero | empty | zerostruct | slice | map | ptr | err | func | big | noout (mr.ErrReduceNoOutput as DATA)
+	X string `json:"x,omitempty"` // values the mapper writes: "" struct{item,k} | nil | nilptr | zero | empty | slice | map | func (uncomparable) | ptr | err | big | noout
 	E string `json:"e,omitempty"` // error VALUE given to cancel / returned by a Finish function: "" *c07Err | eof | wrap | val | unc | noout | wrapnoout | cwn | deadline
-	P string `json:"p,omitempty"` // panic value: "" struct | err | str
+	P string `json:"p,omitempty"` // panic value: "" struct | err | str | nil (panic(nil): *runtime.PanicNilError since Go 1.21)
 	N int    `json:"n,omitempty"` // nested call made by the mapper before its action, with the SAME option slice: 1 MapReduce, 2 Finish
 }
 
@@ -61,7 +61,7 @@ type c07Red struct {
 	Early int    `json:"early,omitempty"` // results written before consuming
 	Late  int    `json:"late,omitempty"`  // results written after consuming
 	A     string `json:"a,omitempty"`     // then: "" | cancel | cancelnil | panic
-	RV    string `json:"rv,omitempty"`    // the result written: "" struct{k} | nil (what Write(nil) means is not documented: unspecified)
+	RV    string `json:"rv,omitempty"`    // the VALUE of the result written: "" struct{k} | nil | nilptr | zero | empty | false | err | noout | slice | map | func | ptr | big (see c07ResultValue)
 }
 
 type c07Case struct {
@@ -72,7 +72,8 @@ type c07Case struct {
 	GenPanic int       `json:"gp"`              // -1 none; k: generator panics instead of sending item k (k==len: after the last)
 	GenTail  int       `json:"gt,omitempty"`    // generator sleeps before returning
 	Red      c07Red    `json:"r"`               //
-	Ctx      string    `json:"ctx,omitempty"`   // "" | deadline | cancelled | cancelat
+	Ctx      string    `json:"ctx,omitempty"`   // "" | deadline | cancelled | cancelat | custom (an own Context implementation, done at CtxAt, Err() an own error)
+	Src      string    `json:"src,omitempty"`   // MapReduceChan only: "" unbuffered, fed by a goroutine | prefilled (buffered, filled and closed before the call)
 	CtxAt    int       `json:"at,omitempty"`    // ticks
 	Count    int       `json:"count,omitempty"` // > len(Items): the item list is Items repeated cyclically up to Count items (big inputs from a small description)
 	Dup      bool      `json:"dup,omitempty"`   // every option is given twice, first with another value (the last one counts)
@@ -189,13 +190,31 @@ func c07ItemValue(i int, kind string) any {
 		return p
 	case "err": // a value with an Error method
 		return &c07Err{src: "itemvalue", i: i}
+	case "func": // uncomparable, not even DeepEqual to itself
+		return func() int { return i }
+	case "big": // a large value (8 KiB, comparable)
+		return c07BigValue(i, -1)
+	case "noout": // the package's own sentinel error as DATA
+		return mr.ErrReduceNoOutput
 	}
 	return c07IntBase + i
 }
 
+// c07Big: a large comparable value; Pad[len-1] repeats I so that a truncated copy shows.
+type c07Big struct {
+	I, K int
+	Pad  [1024]int64
+}
+
+func c07BigValue(i, k int) c07Big {
+	b := c07Big{I: i, K: k}
+	b.Pad[len(b.Pad)-1] = int64(i)
+	return b
+}
+
 func c07Identifying(kind string) bool {
 	switch kind {
-	case "", "str", "struct", "slice", "map", "ptr", "err":
+	case "", "str", "struct", "slice", "map", "ptr", "err", "func", "big":
 		return true
 	}
 	return false
@@ -231,6 +250,14 @@ func c07Pos(item any) int {
 		if x != nil && x.src == "itemvalue" {
 			return x.i
 		}
+	case func() int:
+		if x != nil {
+			return x()
+		}
+	case c07Big:
+		if x.K == -1 && x.Pad[len(x.Pad)-1] == int64(x.I) {
+			return x.I
+		}
 	}
 	return -1
 }
@@ -242,8 +269,51 @@ func c07Key(v any) any {
 		return fmt.Sprintf("[]int%v", x)
 	case map[string]int:
 		return fmt.Sprintf("map%v", x)
+	case map[[2]int]bool:
+		return fmt.Sprintf("map%v", x)
+	case func() [2]int:
+		if x != nil {
+			return fmt.Sprintf("func()=%v", x())
+		}
 	}
 	return v
+}
+
+// c07Short renders a value for messages (large values are cut).
+func c07Short(v any) string {
+	s := fmt.Sprintf("%T(%v)", v, v)
+	if len(s) > 160 {
+		s = s[:160] + "..."
+	}
+	return s
+}
+
+// c07Identical: b is the very value a (same dynamic type; the same slice / map /
+// closure, not a copy, for the reference kinds).
+func c07Identical(a, b any) bool {
+	ta, tb := reflect.TypeOf(a), reflect.TypeOf(b)
+	if ta != tb {
+		return false
+	}
+	if ta == nil {
+		return true
+	}
+	if ta.Comparable() {
+		return a == b
+	}
+	va, vb := reflect.ValueOf(a), reflect.ValueOf(b)
+	switch ta.Kind() {
+	case reflect.Slice:
+		return va.Len() == vb.Len() && va.Pointer() == vb.Pointer() && reflect.DeepEqual(a, b)
+	case reflect.Map:
+		return va.Pointer() == vb.Pointer() && reflect.DeepEqual(a, b)
+	case reflect.Func:
+		if fa, ok := a.(func() int); ok {
+			return va.Pointer() == vb.Pointer() && !va.IsNil() && !vb.IsNil() && fa() == b.(func() int)()
+		}
+		return va.Pointer() == vb.Pointer()
+	}
+	return reflect.DeepEqual(a, b)
 }
 
 func c07Same(a, b any) bool {
@@ -265,10 +335,75 @@ func c07WrittenValue(i, k int, kind string) any {
 		return (*c07Val)(nil)
 	case "zero":
 		return 0
+	case "empty":
+		return ""
 	case "slice":
 		return []int{i, k}
+	case "map":
+		return map[[2]int]bool{{i, k}: true}
+	case "func":
+		return func() [2]int { return [2]int{i, k} }
+	case "ptr":
+		return &c07Val{I: i, K: k}
+	case "err":
+		return &c07Err{src: "written", i: i*100000 + k}
+	case "big":
+		return c07BigValue(i, k)
+	case "noout":
+		return mr.ErrReduceNoOutput
 	}
 	return c07Val{I: i, K: k}
+}
+
+// c07ResultValue: the k-th value the reducer writes as its result.
+func c07ResultValue(k int, kind string) any {
+	switch kind {
+	case "nil": // also what Write(err) with a nil error variable passes
+		return nil
+	case "nilptr":
+		return (*c07Out)(nil)
+	case "zero":
+		return 0
+	case "empty":
+		return ""
+	case "false":
+		return false
+	case "err": // an error as the VALUE of the call ("the first error seen")
+		return &c07Err{src: "result", i: k}
+	case "noout": // the no-output sentinel itself as the value
+		return mr.ErrReduceNoOutput
+	case "slice":
+		return []int{k}
+	case "map":
+		return map[string]int{"k": k}
+	case "func":
+		return func() int { return k }
+	case "ptr":
+		return &c07Out{K: k}
+	case "big":
+		return c07BigValue(-1, k)
+	}
+	return c07Out{K: k}
+}
+
+func c07ResultClass(kind string) string {
+	switch kind {
+	case "nil":
+		return "result:nil"
+	case "nilptr":
+		return "result:typed-nil"
+	case "zero", "empty", "false":
+		return "result:zero-value"
+	case "err", "noout":
+		return "result:error-value"
+	case "slice", "map", "func":
+		return "result:uncomparable"
+	case "ptr":
+		return "result:pointer"
+	case "big":
+		return "result:big"
+	}
+	return "result:struct"
 }
 
 // claim maps a value received by a mapper to an item position (-1: no position
@@ -290,7 +425,7 @@ func (r *c07Run) claim(item any) int {
 			return i
 		}
 	}
-	r.unclaimed = append(r.unclaimed, fmt.Sprintf("%#v", item))
+	r.unclaimed = append(r.unclaimed, c07Short(item))
 	return -1
 }
 
@@ -333,7 +468,7 @@ type c07Outcome struct {
 func (o c07Outcome) String() string {
 	switch o.kind {
 	case "value":
-		return fmt.Sprintf("value %v", o.val)
+		return "value " + c07Short(o.val)
 	case "err":
 		return fmt.Sprintf("error %q", o.err)
 	case "panic":
@@ -363,6 +498,7 @@ type c07Run struct {
 
 	errs     []error
 	redErr   error
+	results  []any // the values the reducer passed to Write, in order
 	opts     []mr.Option
 	nestFail string
 
@@ -432,17 +568,44 @@ func (r *c07Run) userCancel(cancel func(error), err error) {
 	r.log(c07Event{kind: "cancelret"})
 }
 
+// c07Ctx: a Context implementation of the caller's own (not one of package
+// context's): no deadline, Done closes when finish is called, Err is then an error
+// of its own. "A context that is done makes the call return context.DeadlineExceeded."
+type c07Ctx struct {
+	once sync.Once
+	done chan struct{}
+	err  atomic.Value
+}
+
+var errC07Ctx = fmt.Errorf("c07: own context is done")
+
+func (c *c07Ctx) finish() {
+	c.once.Do(func() {
+		c.err.Store(errC07Ctx)
+		close(c.done)
+	})
+}
+func (c *c07Ctx) Deadline() (time.Time, bool) { return time.Time{}, false }
+func (c *c07Ctx) Done() <-chan struct{}       { return c.done }
+func (c *c07Ctx) Value(any) any               { return nil }
+func (c *c07Ctx) Err() error {
+	if e := c.err.Load(); e != nil {
+		return e.(error)
+	}
+	return nil
+}
+
 func (c c07Case) userCancels() int {
 	if !c.hasReducer() {
 		return 0
 	}
 	n := 0
 	for _, it := range c.Items {
-		if it.A == "cancel" || it.A == "cancelnil" {
+		if it.A == "cancel" || it.A == "cancelnil" || it.A == "cancelpanic" {
 			n++
 		}
 	}
-	if c.Red.A == "cancel" || c.Red.A == "cancelnil" {
+	if c.Red.A == "cancel" || c.Red.A == "cancelnil" || c.Red.A == "cancelpanic" {
 		n++
 	}
 	return n
@@ -509,13 +672,37 @@ func c07PanicValue(kind, src string, i int) any {
 		return &c07PanicErr{c07Panic{Src: src, I: i}}
 	case "str":
 		return fmt.Sprintf("c07panic:%s/%d", src, i)
+	case "nil":
+		if c07PanicNilIsError {
+			return nil
+		}
 	}
 	return c07Panic{Src: src, I: i}
 }
 
+// panic(nil): since Go 1.21 recover returns a *runtime.PanicNilError (unless
+// GODEBUG=panicnil=1 is set for the main module): a panic like any other, whose
+// value the caller must see re-raised. Probed once; with the old semantics the
+// kind falls back to the struct value.
+var c07PanicNilIsError = func() (is bool) {
+	defer func() {
+		_, is = recover().(*runtime.PanicNilError)
+	}()
+	panic(nil)
+}()
+
+// c07SamePanic: got is the re-raised value of the logged panic value want.
+func c07SamePanic(got, want any) bool {
+	if want == nil {
+		_, ok := got.(*runtime.PanicNilError)
+		return ok
+	}
+	return c07Same(got, want)
+}
+
 func c07UserPanic(pv any) bool {
 	switch x := pv.(type) {
-	case c07Panic, *c07PanicErr:
+	case c07Panic, *c07PanicErr, *runtime.PanicNilError:
 		return true
 	case string:
 		return strings.HasPrefix(x, "c07panic:")
@@ -538,6 +725,11 @@ func (r *c07Run) act(a, src string, i int, err error, cancel func(error)) {
 	case "cancelnil":
 		r.log(c07Event{kind: "cancel", src: src, err: mr.ErrCancelWithNil})
 		r.userCancel(cancel, nil)
+	case "cancelpanic":
+		// one callback cancels and then panics: two events at one instant
+		r.log(c07Event{kind: "cancel", src: src, err: err})
+		r.userCancel(cancel, err)
+		fallthrough
 	case "panic":
 		pv := c07PanicValue(r.panicKind(i), src, i)
 		r.log(c07Event{kind: "panic", src: src, pv: pv})
@@ -668,12 +860,12 @@ func (r *c07Run) reducer(pipe <-chan any, w mr.Writer, cancel func(error)) {
 	k := 0
 	write := func(n int) {
 		for j := 0; j < n && w != nil; j++ {
+			rv := c07ResultValue(k, rd.RV)
+			r.mu.Lock()
+			r.results = append(r.results, rv)
+			r.mu.Unlock()
 			r.log(c07Event{kind: "write", src: "reducer"})
-			if rd.RV == "nil" {
-				w.Write(nil)
-			} else {
-				w.Write(c07Out{K: k})
-			}
+			w.Write(rv)
 			k++
 		}
 	}
@@ -773,6 +965,15 @@ func (r *c07Run) run() {
 			}
 			cc()
 		})
+	case "custom":
+		cu := &c07Ctx{done: make(chan struct{})}
+		ctx, ctxCancel = cu, cu.finish
+		atInstant(func() {
+			if uc {
+				r.hurryUp()
+			}
+			cu.finish()
+		})
 	}
 	r.ctx = ctx
 	var opts []mr.Option
@@ -798,11 +999,24 @@ func (r *c07Run) run() {
 		case "mr":
 			val, err = mr.MapReduce(gen, r.mapper, r.reducer, opts...)
 		case "chan":
-			source := make(chan any)
-			go func() {
-				defer close(source)
-				r.generate(source, false)
-			}()
+			var source chan any
+			if c.Src == "prefilled" {
+				// everything is in the (buffered) channel and it is closed before the call
+				source = make(chan any, len(c.Items))
+				for i, it := range c.Items {
+					source <- c07ItemValue(i, it.V)
+				}
+				close(source)
+				r.mu.Lock()
+				r.generated, r.genDone = len(c.Items), true
+				r.mu.Unlock()
+			} else {
+				source = make(chan any)
+				go func() {
+					defer close(source)
+					r.generate(source, false)
+				}()
+			}
 			val, err = mr.MapReduceChan(source, r.mapper, r.reducer, opts...)
 		case "void":
 			err = mr.MapReduceVoid(gen, r.mapper, func(pipe <-chan any, cancel func(error)) {
@@ -814,6 +1028,9 @@ func (r *c07Run) run() {
 			fns := make([]func() error, len(c.Items))
 			for i := range c.Items {
 				i, it := i, c.Items[i]
+				if it.A == "nilfn" {
+					continue
+				}
 				fns[i] = func() error {
 					r.enter(i)
 					defer r.exit()
@@ -834,6 +1051,9 @@ func (r *c07Run) run() {
 			fns := make([]func(), len(c.Items))
 			for i := range c.Items {
 				i, it := i, c.Items[i]
+				if it.A == "nilfn" {
+					continue
+				}
 				fns[i] = func() {
 					r.enter(i)
 					defer r.exit()
@@ -887,6 +1107,18 @@ func (r *c07Run) disturbing(upTo time.Duration) []c07Event {
 	for _, e := range r.events {
 		if (e.kind == "cancel" || e.kind == "panic" || e.kind == "goexit") && e.ts <= upTo {
 			d = append(d, e)
+		}
+	}
+	if r.c.Entry == "finish" || r.c.Entry == "finishvoid" {
+		// A nil function value among the functions (a typed-nil item of the pipeline
+		// underneath): calling it fails inside the package's own mapper. What the
+		// call then does is unspecified (it must return and leave nothing behind);
+		// all functions are dispatched at instant 0.
+		for _, it := range r.c.Items {
+			if it.A == "nilfn" {
+				d = append(d, c07Event{kind: "goexit", src: "nilfn", ts: 0})
+				break
+			}
 		}
 	}
 	if r.c.Ctx != "" && r.c.ticks(r.c.CtxAt) <= upTo {
@@ -991,8 +1223,17 @@ func (r *c07Run) judge(res kit.BubbleResult) (v kit.Verdict) {
 			cls["written:nil"] = true
 		}
 	}
-	if c.Red.RV == "nil" {
-		cls["result:nil(unspecified)"] = true
+	if (c.Entry == "mr" || c.Entry == "chan") && c.Red.Early+c.Red.Late > 0 {
+		cls[c07ResultClass(c.Red.RV)] = true
+	}
+	if c.Entry == "chan" && c.Src == "prefilled" {
+		cls["chan-source:prefilled"] = true
+	}
+	if c.Ctx == "custom" && !(c.Entry == "finish" || c.Entry == "finishvoid") {
+		cls["ctx:own-implementation"] = true
+	}
+	if c.Red.A == "cancelpanic" && c.hasReducer() {
+		cls["cancel-then-panic"] = true
 	}
 	if c.Procs > 0 {
 		cls[fmt.Sprintf("gomaxprocs=%d", c.Procs)] = true
@@ -1010,13 +1251,33 @@ func (r *c07Run) judge(res kit.BubbleResult) (v kit.Verdict) {
 	for _, it := range c.Items {
 		if !fin {
 			switch it.V {
-			case "slice", "map":
+			case "slice", "map", "func":
 				cls["item:uncomparable"] = true
 			case "ptr", "err":
 				cls["item:pointer/error-typed"] = true
+			case "big":
+				cls["item:big"] = true
+			case "noout":
+				cls["item:error-sentinel"] = true
 			}
-			if it.X == "slice" && it.W > 0 && c.hasReducer() {
-				cls["written:uncomparable"] = true
+			if it.W > 0 && c.hasReducer() {
+				switch it.X {
+				case "slice", "map", "func":
+					cls["written:uncomparable"] = true
+				case "nilptr":
+					cls["written:typed-nil"] = true
+				case "zero", "empty":
+					cls["written:zero-value"] = true
+				case "ptr", "err":
+					cls["written:pointer/error-typed"] = true
+				case "big":
+					cls["written:big"] = true
+				case "noout":
+					cls["written:error-sentinel"] = true
+				}
+			}
+			if it.A == "cancelpanic" && c.hasReducer() {
+				cls["cancel-then-panic"] = true
 			}
 		}
 		if it.A == "cancel" && it.E != "" && c.Entry != "foreach" && c.Entry != "finishvoid" {
@@ -1240,6 +1501,11 @@ func (r *c07Run) judge(res kit.BubbleResult) (v kit.Verdict) {
 		cls["outcome:"+r.outClass()] = true
 	}
 
+	if r.resultOK() {
+		// the oracle compared the returned value with the value the reducer wrote
+		cls["returned-"+c07ResultClass(c.Red.RV)] = true
+	}
+
 	// ---- nothing is left behind
 	if res.Leak {
 		cls["leak"] = true
@@ -1296,15 +1562,15 @@ func (r *c07Run) writes(t time.Duration) (lt, le, total int) {
 	return
 }
 
-// resultOK: the call returned the reducer's (first) result. For a nil result the
-// statement and the package documentation are silent (is Write(nil) "a value"?):
-// unspecified, both (nil, nil) and ErrReduceNoOutput are accepted.
+// resultOK: the call returned (v, nil) where v is the very value the reducer
+// passed to its (first) Write — "the single value the reducer wrote". Whatever
+// that value is: an untyped nil, a typed nil pointer, a zero value, an error, the
+// ErrReduceNoOutput sentinel itself, an uncomparable or a large value are values
+// like any other; "wrote none" is about the number of writes (ErrReduceNoOutput
+// only for a reducer that never called Write).
 func (r *c07Run) resultOK() bool {
 	o := r.out
-	if r.c.Red.RV == "nil" {
-		return (o.kind == "value" && o.val == nil) || (o.kind == "err" && o.err == mr.ErrReduceNoOutput)
-	}
-	return o.kind == "value" && o.val == any(c07Out{K: 0})
+	return o.kind == "value" && len(r.results) > 0 && c07Identical(r.results[0], o.val)
 }
 
 func (r *c07Run) redret() (time.Duration, bool) {
@@ -1334,7 +1600,7 @@ func (r *c07Run) normalOutcome() string {
 			if r.resultOK() {
 				return ""
 			}
-			return fmt.Sprintf("reducer wrote one value, want it returned, got %v", o)
+			return fmt.Sprintf("reducer wrote one value, %s, want (that value, nil) returned, got %v", c07Short(r.results[0]), o)
 		default:
 			if o.kind == "panic" {
 				if !c07UserPanic(o.pv) {
@@ -1422,7 +1688,7 @@ func (r *c07Run) disturbedOutcome(dist []c07Event, cls map[string]bool) string {
 		case "cancel":
 			return e.ts == minCancel && o.kind == "err" && c07Same(o.err, e.err)
 		case "panic":
-			return o.kind == "panic" && c07Same(o.pv, e.pv)
+			return o.kind == "panic" && c07SamePanic(o.pv, e.pv)
 		case "ctx":
 			if c.Entry == "foreach" {
 				return o.kind == "ok"
@@ -1534,8 +1800,9 @@ func c07Gen(zero bool) func(rt *rapid.T) c07Case {
 		ones := rapid.Bool().Draw(rt, "ones")
 		// item / written values as a dimension (identity is the position, see claim)
 		mixed := !fin && rapid.IntRange(0, 3).Draw(rt, "values") < 2
-		vkinds := []string{"nil", "", "nilptr", "zero", "", "str", "struct", "empty", "zerostruct", "slice", "map", "ptr", "err"}
-		xkinds := []string{"nil", "", "", "nilptr", "zero", "slice"}
+		vkinds := []string{"nil", "", "nilptr", "zero", "", "str", "struct", "empty", "zerostruct", "slice", "map", "ptr", "err", "func", "big", "noout"}
+		xkinds := []string{"nil", "", "", "nilptr", "zero", "slice", "empty", "map", "func", "ptr", "err", "big", "noout"}
+		rkinds := []string{"nil", "nilptr", "zero", "err", "slice", "noout", "empty", "false", "map", "func", "ptr", "big", "nil"}
 		ekinds := []string{"", "eof", "wrap", "val", "unc", "noout", "wrapnoout", "cwn", "deadline"}
 		errKinds := rapid.IntRange(0, 3).Draw(rt, "errkinds") == 0
 		// delay magnitudes: mostly small tick counts (many ties); in a quarter of the
@@ -1635,16 +1902,22 @@ func c07Gen(zero bool) func(rt *rapid.T) c07Case {
 				c.Count = c07Pick(rt, "bigcount", 1000, 4097, 1000, 10000)
 			}
 		}
-		if c.Red.Early+c.Red.Late > 0 && rapid.IntRange(0, 5).Draw(rt, "rv") == 0 {
-			c.Red.RV = "nil"
+		// the VALUE of the reducer's result as a dimension
+		if c.Red.Early+c.Red.Late > 0 && rapid.IntRange(0, 2).Draw(rt, "rv") == 0 {
+			c.Red.RV = rkinds[rapid.IntRange(0, len(rkinds)-1).Draw(rt, "rvk")]
+		}
+		if c.Entry == "chan" && rapid.IntRange(0, 3).Draw(rt, "src") == 0 {
+			c.Src = "prefilled"
 		}
 		if disturbed {
-			acts := []string{"cancel", "cancel", "cancelnil", "panic", "panic", "goexit"}
+			acts := []string{"cancel", "cancel", "cancelnil", "panic", "panic", "goexit", "cancelpanic"}
 			switch c.Entry {
-			case "foreach", "finishvoid":
+			case "foreach":
 				acts = []string{"panic", "panic", "goexit"}
+			case "finishvoid":
+				acts = []string{"panic", "panic", "goexit", "nilfn"}
 			case "finish":
-				acts = []string{"cancel", "cancel", "panic", "goexit"}
+				acts = []string{"cancel", "cancel", "panic", "goexit", "nilfn"}
 			}
 			if n > 0 {
 				k := rapid.IntRange(0, 3).Draw(rt, "ndist")
@@ -1654,27 +1927,27 @@ func c07Gen(zero bool) func(rt *rapid.T) c07Case {
 					if errKinds && c.Items[i].A == "cancel" {
 						c.Items[i].E = rapid.SampledFrom(ekinds).Draw(rt, "de")
 					}
-					if errKinds && c.Items[i].A == "panic" {
-						c.Items[i].P = rapid.SampledFrom([]string{"err", "str", ""}).Draw(rt, "dp")
+					if errKinds && (c.Items[i].A == "panic" || c.Items[i].A == "cancelpanic") {
+						c.Items[i].P = rapid.SampledFrom([]string{"err", "str", "", "nil"}).Draw(rt, "dp")
 					}
 				}
 			}
 			if c.hasReducer() && rapid.IntRange(0, 3).Draw(rt, "ract") == 0 {
-				c.Red.A = rapid.SampledFrom([]string{"cancel", "cancelnil", "panic", "goexit"}).Draw(rt, "ra")
+				c.Red.A = rapid.SampledFrom([]string{"cancel", "cancelnil", "panic", "goexit", "cancelpanic"}).Draw(rt, "ra")
 			}
 			if !fin && c.Entry != "chan" && rapid.IntRange(0, 7).Draw(rt, "gpanic") == 0 {
 				c.GenPanic = rapid.IntRange(0, n).Draw(rt, "gp")
 				c.GenExit = rapid.IntRange(0, 3).Draw(rt, "gx") == 0
 			}
 			if !fin && rapid.IntRange(0, 9).Draw(rt, "ctxkind") < 4 {
-				c.Ctx = rapid.SampledFrom([]string{"deadline", "deadline", "cancelat", "cancelled"}).Draw(rt, "ctx")
+				c.Ctx = rapid.SampledFrom([]string{"deadline", "deadline", "cancelat", "cancelled", "custom"}).Draw(rt, "ctx")
 				if c.Ctx != "cancelled" {
 					c.CtxAt = mag("at", c07Pick(rt, "at", 0, 1, 2, 3, 4, 6, 9, 15, 40))
 				}
 			}
 		} else if !fin && rapid.IntRange(0, 5).Draw(rt, "ctxfar") == 0 {
 			// a context that is handed over but never done while the call runs
-			c.Ctx = rapid.SampledFrom([]string{"deadline", "cancelat"}).Draw(rt, "ctx")
+			c.Ctx = rapid.SampledFrom([]string{"deadline", "cancelat", "custom"}).Draw(rt, "ctx")
 			c.CtxAt = c07Far
 		}
 		return c
@@ -1708,6 +1981,7 @@ func c07GenStorm(rt *rapid.T) c07Case {
 	case 2:
 		if c.Entry == "mr" || c.Entry == "chan" {
 			c.Red.Late = 1
+			c.Red.RV = rapid.SampledFrom([]string{"", "nil", "nilptr", "slice"}).Draw(rt, "rv")
 		}
 	}
 	c.Reps = rapid.IntRange(100, 300).Draw(rt, "reps")
@@ -1754,11 +2028,12 @@ func TestVerif_C07_zz_loop(t *testing.T) {
 // c07Enumerate: small-scope exhaustive enumeration of MapReduce calls.
 // quick:    workers 1..2, 1..2 items with delay 0..1 / plain|cancel|panic / one value each,
 //
-//	reducer take all|0|1 x result none|late|early x plain|cancel|panic, ctx none|deadline 0..1
+//	reducer take all|0|1 x result none|late|early|late nil|early nil x plain|cancel|panic, ctx none|deadline 0..1
 //
 // thorough: delays 0..2, 0..2 values per item, ctx deadline 0..2 in addition, and every
 //
-//	item either an int that writes structs or an untyped nil that writes nils.
+//	item either an int that writes structs or an untyped nil that writes nils (the nil
+//	results only together with int items).
 func c07Enumerate(thorough bool) func(yield func(c07Case) bool) {
 	ds, ws, ctxs := []int{0, 1}, []int{1}, []int{-1, 0, 1}
 	if thorough {
@@ -1795,8 +2070,14 @@ func c07Enumerate(thorough bool) func(yield func(c07Case) bool) {
 		for w := 1; w <= 2; w++ {
 			for n := 1; n <= 2; n++ {
 				ok := items(n, nil, func(its []c07Item) bool {
+					nrw := 5
+					for _, it := range its {
+						if it.V != "" {
+							nrw = 3 // (thorough) a nil result is combined with int items only
+						}
+					}
 					for _, take := range []int{-1, 0, 1} {
-						for rw := 0; rw < 3; rw++ {
+						for rw := 0; rw < nrw; rw++ {
 							for _, ra := range acts {
 								for _, at := range ctxs {
 									c := c07Case{Entry: "mr", HasW: true, W: w, GenPanic: -1,
@@ -1807,6 +2088,10 @@ func c07Enumerate(thorough bool) func(yield func(c07Case) bool) {
 										c.Red.Late = 1
 									case 2:
 										c.Red.Early = 1
+									case 3: // the one value written is an untyped nil
+										c.Red.Late, c.Red.RV = 1, "nil"
+									case 4:
+										c.Red.Early, c.Red.RV = 1, "nil"
 									}
 									if at >= 0 {
 										c.Ctx, c.CtxAt = "deadline", at
